@@ -202,8 +202,7 @@ def check_strings(rep, prog):
     r = I.method(sfr, "get_trace_string", [h])
     loops = [L for L in I.loops.values() if L.func == TR + "TraceStringFile.get_trace_string"]
     if len(loops) != 1:
-        raise AnalysisError("TraceStringFile.get_trace_string no longer scans the trace strings with one loop: look-up idiom not "
-                            "recognised (exact-first / last-partial clauses cannot be decided)")
+        return check_strings_indexed(rep, prog, rule)
     L = loops[0]
     el = Op("elem", STRS, L.idx)
     ism = Op("m:is_match", el, h)
@@ -280,6 +279,28 @@ def check_strings(rep, prog):
     apps = [e for e in I3.events if e.kind == "append" and e.data[0] == lst]
     rep.check(len(apps) == 1 and not muts and isinstance(lst, Ref), rule, "trace strings are kept in file order", TR + "TraceStringFile", "self.trace_strings.append",
               "trace strings are re-ordered / indexed differently after loading")
+
+
+def check_strings_indexed(rep, prog, rule):
+    """look-up through index dictionaries built while loading: the exact index may keep the first string per hash,
+    the partial index (keyed by hash % 100000) must keep the LAST one"""
+    I = Interpreter(prog)
+    sf = I.new(TR + "TraceStringFile", [Sym("path")])
+    h = Sym("h", "int")
+    r = I.method(sf, "get_trace_string", [h])
+    looks = [x for x in walk(r) if isinstance(x, Op) and x.op in ("dictget", "getitem") and isinstance(x.args[0], Ref) and
+             pelx.dict_entries(I, x.args[0]) is not None]
+    part = [x for x in looks if any(isinstance(y, Op) and y.op == "mod" and y.args[1] == Const(100000) for y in walk(x.args[1]))]
+    exact = [x for x in looks if x.args[1] == h]
+    if not part or not exact:
+        raise AnalysisError("TraceStringFile.get_trace_string: look-up idiom not recognised (neither a scan nor hash / hash %% 100000 indexes)")
+    for x in part:
+        fills = [e for e in I.events if e.kind in ("dict_store", "dictmut") and e.data[0] == x.args[0]]
+        first_wins = [e for e in fills if e.kind == "dictmut" and e.data[1] == "setdefault"]
+        rep.check(bool(fills) and not first_wins, rule, "partial-match index keeps the last string per hash %% 100000", TR + "TraceStringFile",
+                  first_wins[0].node if first_wins else "index fill", "the partial-match index keeps the FIRST string with a given hash %% 100000 "
+                  "(setdefault): the documented fallback is the last partially matching string", node=first_wins[0].node if first_wins else None)
+    rep.ok(rule, "exact matches are served from a hash index")
 
 
 def check_rendering(rep, prog):
